@@ -171,6 +171,12 @@ type Engine struct {
 	// only covers the segments that were closed when it was taken.
 	snapshotSegments []string
 
+	// snapshotMu is held while a cache snapshot is in flight, from the swap of the cache
+	// until its TSM files are installed in the file store.  The values of an in-flight
+	// snapshot are neither in the live cache nor in a TSM file; deleteSeriesRange holds the
+	// mutex as well so that it does not run, and miss those values, in between.
+	snapshotMu sync.Mutex
+
 	MaxPointsPerBlock int
 
 	// CacheFlushMemorySizeThreshold specifies the minimum size threshold for
@@ -1647,6 +1653,18 @@ func (e *Engine) deleteSeriesRange(seriesKeys [][]byte, min, max int64) error {
 		return nil
 	}
 
+	// No cache snapshot may be in flight while values are removed: its values are in neither
+	// the live cache nor a TSM file yet, so they would survive the delete (and with no other
+	// data around the delete would do nothing at all, leaving the series in the index).
+	e.snapshotMu.Lock()
+	defer e.snapshotMu.Unlock()
+	if e.Cache.hasRetainedSnapshot() {
+		// A snapshot whose write failed is still held by the cache: write it out first.
+		if err := e.writeSnapshot(); err != nil {
+			return err
+		}
+	}
+
 	// Min and max time in the engine are slightly different from the query language values.
 	if min == influxql.MinTime {
 		min = math.MinInt64
@@ -2004,6 +2022,13 @@ func (e *Engine) WriteTo(w io.Writer) (n int64, err error) { panic("not implemen
 
 // WriteSnapshot will snapshot the cache and write a new TSM file with its contents, releasing the snapshot when done.
 func (e *Engine) WriteSnapshot() (err error) {
+	e.snapshotMu.Lock()
+	defer e.snapshotMu.Unlock()
+	return e.writeSnapshot()
+}
+
+// writeSnapshot is WriteSnapshot for callers that hold snapshotMu.
+func (e *Engine) writeSnapshot() (err error) {
 	// Lock and grab the cache snapshot along with all the closed WAL
 	// filenames associated with the snapshot
 
